@@ -37,14 +37,19 @@ WORLDS = {
 
 ARGS = {"L": "lit", "R": "%(v)s", "P": "%(replica)s"}
 ARGS_BACK = {v: k for k, v in ARGS.items()}
+ARGS_BACK.update({"True": "T", "1.0": "D"})            # how interpolation renders True / 1.0
+CV = {"1": "1", "2": "2", "i": 1, "b": True, "f": 1.0}   # i, b, f are equal under == but not the same value
 NP = {"1": 1, "2": 2, "R": "%(v)s", "X": "abc"}
-NP_BACK = {"1": "1", "2": "2", "%(v)s": "R", "abc": "X"}
+NP_BACK = {"1": "1", "2": "2", "%(v)s": "R", "abc": "X", "True": "T", "1.0": "D"}
 RI = {"0": 0, "5": 5}
 RI_BACK = {"0": "0", "5": "5"}
 IP = {"B": "bash"}
 # template -> (cv, args, np, ri, srep, ip); srep (the stored isRepeat) is never given by a caller
 TEMPLATES = {"T1": (U, "R", U, U, U, U), "T2": ("2", "L", "R", U, U, U), "T3": ("1", "R", "2", U, U, U),
-             "T4": (U, "P", U, U, U, U), "T5": (U, "L", "X", U, U, U), "T6": (U, "L", U, "5", U, "B")}
+             "T4": (U, "P", U, U, U, U), "T5": (U, "L", "X", U, U, U), "T6": (U, "L", U, "5", U, "B"),
+             "T7": ("i", "R", U, U, U, U), "T8": ("b", "R", U, U, U, U), "T9": ("f", "R", U, U, U, U)}
+EDITS = {"aL": ("command", "arguments", "lit"), "aR": ("command", "arguments", "%(v)s"),
+         "v1": ("variables", "v", "1"), "v2": ("variables", "v", "2"), "v-": ("variables", "v", None)}
 FLAVOURS = {
     "full": dict(raw=False, include_default=True),
     "raw": dict(raw=True, include_default=True),
@@ -60,7 +65,8 @@ KINDS = {"FlowIRComponentUnknown": "ComponentUnknown", "FlowIRVariableUnknown": 
 KNOWN_DEVIATIONS = {"unescaped-component-name-in-invalidation-regex", "lenient-query-result-cached-for-strict-queries",
                     "derived-isRepeat-frozen-outside-fully-resolved-queries",
                     "platform-created-through-global-variable-lacks-stages-scope"}
-COMP_SCOPED = {"SetCompVar", "DelCompVar", "SetArgs", "SetNp", "DelNp", "SetRi", "DelRi", "SetIp", "DelIp", "ReplaceComp", "DeleteComp"}
+COMP_SCOPED = {"SetCompVar", "DelCompVar", "SetArgs", "SetNp", "DelNp", "SetRi", "DelRi", "SetIp", "DelIp", "ReplaceComp", "ReplaceSame",
+               "DeleteComp"}
 OPTION_ROUTE = {"SetArgs": "#command.arguments", "SetNp": "#resourceRequest.numberProcesses", "DelNp": "#resourceRequest.numberProcesses",
                 "SetRi": "#workflowAttributes.repeatInterval", "DelRi": "#workflowAttributes.repeatInterval",
                 "SetIp": "#command.interpreter", "DelIp": "#command.interpreter"}
@@ -91,12 +97,12 @@ class World:
 
     def base_code(self, b):
         """the base descriptions Base(b) of ConfigCache.tla (checked against TLC's initial states by the driver)"""
-        return {0: self.make_code("1-", "--", "P-R----P-R----"),
-                1: self.make_code("11", "2-", "P1R2---A-L----"),
-                2: self.make_code("--", "--", "P1RR5T-P-LX--B")}[b]
+        return {0: self.make_code("1-", "--", "P-R-----P-R-----"),
+                1: self.make_code("11", "2-", "P1R2----A-L-----"),
+                2: self.make_code("--", "--", "P1RR5T--P-LX--B-")}[b]
 
     def plain_code(self):
-        return self.make_code("1-", "--", "P-L----P-L----")
+        return self.make_code("1-", "--", "P-L-----P-L-----")
 
     def decode(self, code):
         """'K1-K----#|P-R----P-R----|000000|N' -> dict(kn, gv, sv, comp, cache(set of (label, platform)), handed)"""
@@ -109,7 +115,7 @@ class World:
             sv[p] = {s: d[i * n + 2 + j] for j, s in enumerate(self.stage_seq)}
         comp = {}
         for i, l in enumerate(self.labels):
-            comp[l] = c[7 * i:7 * i + 7]
+            comp[l] = c[8 * i:8 * i + 8]
         cache = set()
         for i, l in enumerate(self.labels):
             for j, p in enumerate(PLATS):
@@ -117,12 +123,12 @@ class World:
                     cache.add((l, p))
         return {"kn": kn, "gv": gv, "sv": sv, "comp": comp, "cache": cache, "handed": h}
 
-    def render_component(self, label, cv, args, np, ri=U, srep=U, ip=U):
+    def render_component(self, label, cv, args, np, ri=U, srep=U, ip=U, al=U):
         st, name = self.cid[label]
         c = {"name": name, "stage": st, "command": {"executable": "echo", "arguments": ARGS[args]},
              "variables": {}, "resourceRequest": {}, "workflowAttributes": {}}
         if cv != U:
-            c["variables"]["v"] = cv
+            c["variables"]["v"] = CV[cv]
         if np != U:
             c["resourceRequest"]["numberProcesses"] = NP[np]
         if ri != U:
@@ -158,8 +164,9 @@ class World:
                 comps.append(self.render_component(l, *cc[1:]))
         return {"components": comps, "variables": variables, "platforms": [p for p in PLATS if st["kn"][p]]}
 
-    def project_description(self, raw):
-        """real raw() -> the D part of a state code ('?' for anything the model cannot express)"""
+    def project_description(self, raw, held=()):
+        """real raw() -> the D part of a state code ('?' for anything the model cannot express); held: the components whose
+        stored definition shares its nested sections with a dictionary the caller still holds (only the driver knows)"""
         out = []
         variables = raw.get("variables", {})
         for p in PLATS:
@@ -178,14 +185,14 @@ class World:
         for l in self.labels:
             c = found.get(self.cid[l])
             if c is None:
-                out.append("A-L----")
+                out.append("A-L-----")
                 continue
             wa = c.get("workflowAttributes", {})
-            out.append("P" + _val(c.get("variables", {}).get("v", U))
+            out.append("P" + _cv(c.get("variables", {}).get("v", U))
                        + ARGS_BACK.get(c.get("command", {}).get("arguments"), "?")
                        + _np(c.get("resourceRequest", {}).get("numberProcesses", U))
                        + _ri(wa.get("repeatInterval", U)) + _rep(wa.get("isRepeat", U))
-                       + _ip(c.get("command", {}).get("interpreter", U)))
+                       + _ip(c.get("command", {}).get("interpreter", U)) + ("a" if l in held else U))
         return "".join(out)
 
     def cache_code(self, keys):
@@ -198,6 +205,22 @@ class World:
 
 def _val(v):
     return v if v in (U, "1", "2") else "?"
+
+
+def _cv(v):
+    """typed: 1, True and 1.0 are equal under == but are different values of a variable"""
+    if isinstance(v, bool):
+        return "b" if v is True else "?"
+    if isinstance(v, int):
+        return "i" if v == 1 else "?"
+    if isinstance(v, float):
+        return "f" if v == 1.0 else "?"
+    return _val(v)
+
+
+def typed_equal(a, b):
+    """== that tells 1 from True from 1.0 (dictionaries compare equal across these)"""
+    return a == b and json.dumps(a, sort_keys=True, default=str) == json.dumps(b, sort_keys=True, default=str)
 
 
 def _np(v):
@@ -234,7 +257,7 @@ def project_result(r):
     n = r.get("resourceRequest", {}).get("numberProcesses", U)
     n = U if n == U or n is None else NP_BACK.get(str(n), "?")
     wa = r.get("workflowAttributes", {})
-    return {"v": _val(r.get("variables", {}).get("v", U)), "args": a, "np": n, "ri": _ri(wa.get("repeatInterval", U)),
+    return {"v": _cv(r.get("variables", {}).get("v", U)), "args": a, "np": n, "ri": _ri(wa.get("repeatInterval", U)),
             "rep": _rep(wa.get("isRepeat", U)), "xa": _xa(r.get("command", {}).get("expandArguments", U))}
 
 
@@ -274,6 +297,7 @@ class Live:
         self.conf._concrete = self.concrete
         self.handed = None
         self.handed_kind = "N"
+        self.held = {}            # label -> the dictionary given to update_component / add_component(insert_copy=False)
 
     # -- observation ------------------------------------------------------------------------
     def cache_keys(self):
@@ -362,11 +386,28 @@ class Live:
             else:
                 conf.removeOptionForNode(node, OPTION_ROUTE[act])
         elif act == "ReplaceComp":
-            conc.update_component(cid, w.render_component(c, *TEMPLATES[x]))
+            d = w.render_component(c, *TEMPLATES[x])
+            conc.update_component(cid, d)
+            self.held[c] = d
+        elif act == "ReplaceSame":
+            # the caller edits a nested section of the dictionary it handed over, then submits the very same object again
+            d = self.held[c]
+            section, field, value = EDITS[x]
+            if value is None:
+                d[section].pop(field, None)
+            else:
+                d[section][field] = value
+            conc.update_component(cid, d)
         elif act == "AddComp":
-            conc.add_component(w.render_component(c, *TEMPLATES[x]), insert_copy=bool(variant % 2))
+            d = w.render_component(c, *TEMPLATES[x])
+            conc.add_component(d, insert_copy=(how != "ref"))
+            if how == "ref":
+                self.held[c] = d
+            else:
+                self.held.pop(c, None)
         elif act == "DeleteComp":
             conc.delete_component(cid)
+            self.held.pop(c, None)
         elif act == "SetGlobal":
             conc.set_global_variable("v", x)
         elif act == "SetStageVar":
@@ -448,7 +489,7 @@ class Runner:
                 memo[k] = (KINDS.get(name, "error:" + name), None)
         return memo[k]
 
-    def run_walk(self, wid, active, init_code, steps, widx=0):
+    def run_walk(self, wid, active, init_code, steps, widx=0, track=False):
         """steps: list of {"a": call record incl. the spec's ret, "t": spec state code after the call}.
         Returns dict(executed, finding or None, drift list)."""
         w = self.world(wid)
@@ -458,7 +499,8 @@ class Runner:
 
         def finding(kind, key, what, i):
             out["finding"] = {"kind": kind, "key": key, "what": what, "step": i,
-                              "replay": {"world": wid, "active": active, "init": init_code, "steps": steps[:i + 1], "widx": widx}}
+                              "replay": {"world": wid, "active": active, "init": init_code, "steps": steps[:i + 1], "widx": widx,
+                                         "track": track}}
             return out
 
         for i, stp in enumerate(steps):
@@ -478,7 +520,7 @@ class Runner:
                 out["queries"] += 1
                 out["hits"] += 1 if was_cached else 0
                 fkind, fres = self.from_scratch(live, rawkey, raw, a["c"], a["p"], a["x"])
-                same = (kind == fkind) and (kind != "ok" or res == fres)
+                same = (kind == fkind) and (kind != "ok" or typed_equal(res, fres))
                 if not same:
                     key = classify_query(self, w, a, kind, res, fkind, fres, steps[:i], was_cached, raw)
                     f = finding("violation", key,
@@ -508,7 +550,7 @@ class Runner:
                     else:
                         return finding("drift", "outcome", "%s: real outcome %s, spec %s [%s]" % (describe(a), kind, want, tag), i)
             # (2) the description
-            dcode = w.project_description(raw)
+            dcode = w.project_description(raw, live.held if track else ())
             if dcode != tcode.rsplit("|", 2)[0]:
                 if a["act"] in ("MutateReturned", "Query"):
                     return finding("violation", "private:description-changed-by-%s" % a["act"],
@@ -522,13 +564,13 @@ class Runner:
                     return finding("drift", "cache-key", "unexpected cache key %r [%s]" % (k, tag), i)
                 fkind, fres = self.from_scratch(live, rawkey, raw, who[0], who[1], "full")
                 entry = live.cache_entry(k)
-                if fkind != "ok" or entry != fres:
+                if fkind != "ok" or not typed_equal(entry, fres):
                     # confirm with a real query: the stale entry is what a caller gets
                     try:
                         qk, qr = "ok", live.query(who[0], who[1], "full", 2)
                     except Exception as e:
                         qk, qr = type(e).__name__, None
-                    if qk == fkind and qr == fres:
+                    if qk == fkind and typed_equal(qr, fres):
                         continue      # the entry is not what is served (cannot happen with the current code)
                     if a["act"] == "MutateReturned":
                         key = "private:cache-changed-by-MutateReturned"
